@@ -782,6 +782,12 @@ func (x *extractor) scanFunc(p *pkgInfo, f *ast.File, fd *ast.FuncDecl) {
 				}
 			}
 			file, line := rel(ce.Pos())
+			if ce.Ellipsis.IsValid() { // ConcatKey(contract, args...): segment list built elsewhere, no static schema
+				if len(bind) == 0 || isFirstVariant(bind, variants) {
+					x.Unres = append(x.Unres, fmt.Sprintf("%s:%d %s: ConcatKey called with a spread argument list (%s...)", file, line, fd.Name.Name, exprStr(ce.Args[len(ce.Args)-1])))
+				}
+				return true
+			}
 			s := Site{File: file, Line: line, Func: fd.Name.Name, Contract: c.contractOf(ce.Args[0]), Use: useOf(stack, ce, fd)}
 			for _, a := range ce.Args[1:] {
 				s.Segs = append(s.Segs, c.classify(a, 0))
@@ -841,6 +847,10 @@ func (x *extractor) usesOfCallers(p *pkgInfo, fname string) string {
 		return "returned"
 	}
 	return strings.Join(l, "+")
+}
+
+func isFirstVariant(bind map[string]Seg, variants []map[string]Seg) bool {
+	return len(variants) > 0 && fmt.Sprint(bind) == fmt.Sprint(variants[0])
 }
 
 func countConcat(fd *ast.FuncDecl) int {
